@@ -14,6 +14,9 @@ FILES = ["results.txt", "results2.txt", "results3.txt"]
 
 
 def main():
+    if not os.path.isdir(SRC):
+        print("historical tool: the run logs under /tmp/reverts are gone; reverts.json is kept as it is")
+        return
     hist = {}
     order = []
     for f in FILES:
